@@ -82,7 +82,7 @@ def state1(ctx: Ctx, chk) -> None:
     eea = ctx.eea()
     gw = ctx.cls("aiomysensors.gateway.Gateway")
     n = 0
-    for fl in gw.methods.values():
+    for fl in gw.mro_methods().values():
         for f in fl:
             if f.name == "__init__":
                 continue
